@@ -271,6 +271,69 @@ def _painting_siblings(ctx):
     ctx.ob("R36.5", "fdtdx.fdtd.initialization:pole-coefficient painting", not bad and n_groups >= 2, "in every placement loop the statements that paint dispersive_c1 .. c4 have one and the same form up to the coefficient's digit (temporaries inlined): all four are overwritten inside the object's mask, none is accumulated", bad[:3], f"{n_groups} groups, one form each")
 
 
+# ------------------------------------------------------------------ zero-coefficient cells next to an oriented-pole medium
+def _vacuum_next_to_oriented_medium(ctx):
+    """Full-tensor kernel with a 3x3 coupling per pole (oriented poles) on a concrete 3x2x2 grid: the cells x < 2 carry
+    free coefficient symbols, the cells x = 2 have all coefficients literally zero.  In those cells the new
+    polarisation must be zero whatever the neighbours hold (the spatially averaged off-diagonal coupling must not
+    reach into a cell that has no pole), and in the medium it must be the documented recurrence."""
+    from .. import absint
+    from . import c09
+
+    ix = ctx.index
+    shape = (3, 2, 2)
+    cells = list(itertools.product(*[range(n) for n in shape]))
+    in_medium = lambda p: p[0] < 2
+    it, sc, objs, cfg, _ = c09._supercell_scene(ctx, shape, (False, False, False), (0, 0, 0), None)
+
+    def nonzero_coeff(op, d):
+        ats = d.atoms()
+        if len(ats) == 1:
+            (a,) = ats
+            if isinstance(a, tuple) and a and a[0] in ("g", "a", "b") and (d - Rat.atom(a)).is_zero():
+                return {"eq": False, "ne": True}.get(op)
+        return None
+
+    absint.COMPARE_ORACLES.append(nonzero_coeff)
+    try:
+        def tab(name, comps):
+            return NdArr((1, comps) + shape, [(Rat.atom((name, c) + p) if in_medium(p) else 0) for c in range(comps) for p in cells])
+
+        E, H = c09._sym_arr("E", 3, shape), c09._sym_arr("H", 3, shape)
+        ie = NdArr((9,) + shape, [(Rat.atom(("ie", c) + p) if (in_medium(p) or c in (0, 4, 8)) else 0) for c in range(9) for p in cells])
+        P0 = NdArr((1, 3) + shape, [Rat.atom(("P", c) + p) if in_medium(p) else 0 for c in range(3) for p in cells])
+        Q0 = NdArr((1, 3) + shape, [Rat.atom(("Q", c) + p) if in_medium(p) else 0 for c in range(3) for p in cells])
+        fields = sc.fields(E=E, H=H, dispersive_P_curr=P0, dispersive_P_prev=Q0)
+        arrays = sc.arrays(fields=fields, inv_permittivities=ie, inv_permeabilities=c09._sym_arr("im", 3, shape), detector_states={}, dispersive_c1=tab("a", 3), dispersive_c2=tab("b", 3), dispersive_c3=tab("g", 9), dispersive_c4=None)
+        f = ix.function("fdtdx.fdtd.update.update_E")
+        try:
+            out = it.call(it.closure_of(f), [0, arrays, objs, cfg, True], {})
+        except Raised as r:
+            raise AnalysisError(f"update_E raises on the oriented-pole scene: {r}")
+    finally:
+        absint.COMPARE_ORACLES.remove(nonzero_coeff)
+    Pn = out.attrs["fields"].attrs["dispersive_P_curr"]
+    if not (isinstance(Pn, NdArr) and Pn.shape == (1, 3) + shape):
+        raise AnalysisError(f"update_E: polarisation of shape {getattr(Pn, 'shape', Pn)}")
+    leak, n_vac, n_med, wrong = [], 0, 0, []
+    for c in range(3):
+        for k_, p in enumerate(cells):
+            v = to_rat(Pn.data[c * len(cells) + k_])
+            if not in_medium(p):
+                n_vac += 1
+                if not v.is_zero():
+                    leak.append((f"P_{'xyz'[c]} at cell {p}", v.fmt()[:160]))
+            else:
+                n_med += 1
+                # the part of P' that does not involve the field: c1 P + c2 P_prev (the coupling is linear in E)
+                rest = v.subs({a: Rat.const(0) for a in v.atoms() if isinstance(a, tuple) and a and a[0] == "E"})
+                want = Rat.atom(("a", c) + p) * Rat.atom(("P", c) + p) + Rat.atom(("b", c) + p) * Rat.atom(("Q", c) + p)
+                if not rest.equals(want):
+                    wrong.append((f"P_{'xyz'[c]} at cell {p}", rest.fmt()[:120], want.fmt()[:120]))
+    ctx.ob("R36.7", "update_E[full tensor, 3x3 pole coupling]:zero-coefficient cells", not leak and n_vac == 12, "in a cell whose pole coefficients are all zero the new polarisation is zero even when the neighbouring cells carry oriented poles: the averaged off-diagonal coupling is weighted by the cell's own coefficients / material mask on both terms", leak[:3], "0 in every such cell")
+    ctx.ob("R36.7", "update_E[full tensor, 3x3 pole coupling]:history terms", not wrong and n_med == 24, "in the medium the field-independent part of the new polarisation is c1 P + c2 P_prev of the same cell", wrong[:2], "c1 P + c2 P_prev")
+
+
 # ------------------------------------------------------------------ coupled field / polarisation stability limit
 def _schur_stable(coefs):
     """exact Schur-Cohn / Jury reduction: every root of sum coefs[k] z^k (rational coefficients) lies strictly inside
@@ -512,6 +575,7 @@ def _coupled_stability(ctx):
 
 def run(ctx):
     _recurrence(ctx)
+    _vacuum_next_to_oriented_medium(ctx)
     _coupled_stability(ctx)
     _zero_coefficients(ctx)
     _acceptance(ctx)
